@@ -253,9 +253,25 @@ def match(ctx: Any) -> List[Ob]:
 
         return gc.must_pass_before_exit(gc.entry, hit) is None
 
-    reloaders = [n for n in cfg.nodes if any(isinstance(c.func, ast.Attribute) and self_attr(c.func, me) and 'addresses_from_cache' in c.func.attr for c in n.calls())]
+    # where the address lists are reloaded: a call of a routine of the class that assigns one of them on every path, or the
+    # assignment itself (the routine spelled out in place)
+    def reloads(n: Any) -> bool:
+        if n.kind == 'stmt' and any(self_attr(t, me) in ('_ipv4_addresses', '_ipv6_addresses') and isinstance(st, ast.Assign) for t, st in attr_stores(n.ast)):
+            return True
+        for c in n.calls():
+            if isinstance(c.func, ast.Attribute) and self_attr(c.func, me):
+                h = info_cls.find_method(c.func.attr)
+                if h is not None and h is not f and (resets(h, '_ipv4_addresses') or resets(h, '_ipv6_addresses')):
+                    return True
+        return False
+
+    reloaders = [n for n in cfg.nodes if reloads(n)]
     changed = [t for t in cfg.nodes if t.kind == 'test' and isinstance(t.ast, ast.Compare) and len(t.ast.ops) == 1 and isinstance(t.ast.ops[0], (ast.NotEq, ast.Eq)) and any(isinstance(x, ast.Name) for x in (t.ast.left, t.ast.comparators[0])) and any(self_attr(x, me) for x in (t.ast.left, t.ast.comparators[0])) and reloaders and any(cfg.dominates(t, r_) for r_ in reloaders)]
     changed = [t for t in changed if all(o is t or cfg.dominates(o, t) for o in changed)]  # the innermost guard of the reload
+    if not reloaders:
+        from sa import StructuralViolation
+
+        raise StructuralViolation(f.module.rel, f.qual, 'self._ipv4_addresses = ... ; self._ipv6_addresses = ...', 'when an SRV record points the instance at another host, the address lists are replaced by the cached addresses of the new host', 'nothing in the record processor (or in a routine it calls) assigns the address lists: the addresses of the previous host stay in the description')
     if len(changed) != 1:
         raise AnalysisError('anchor vanished: the server-changed test of the SRV arm')
     ct = changed[0]
